@@ -11,8 +11,13 @@ for p in sorted(glob.glob(os.path.join(VERIF, 'seeded', '*', 'meta.json'))):
     what = (need[0] if need else '')[:240].replace('|', '/')
     first = det.get('first_counterexample', '') or ''
     ob = first.split(' ')[0].replace('obligation=', '') if first else ''
-    rows.append('| %s | %s | %s | %s | %s |' % (sid, m.get('round', 1), what, det.get('verdict', '-'), ob[:80]))
-table = '| seed | round | change (first line of the sub-agent\'s note) | quick check | first violated obligation |\n|---|---|---|---|---|\n' + '\n'.join(rows) + '\n'
+    verdict = det.get('verdict', '-')
+    if det.get('tier'):
+        verdict += ' [%s%s]' % (det['tier'], (', %d s' % det['seconds']) if det.get('seconds') is not None else '')
+    if m.get('adjudication'):
+        verdict += ' - ' + m['adjudication']
+    rows.append('| %s | %s | %s | %s | %s |' % (sid, m.get('round', 1), what, verdict, ob[:80]))
+table = '| seed | round | change (first line of the sub-agent\'s note) | outcome [tier, wall time of the check on the changed tree] | first violated obligation |\n|---|---|---|---|---|\n' + '\n'.join(rows) + '\n'
 path = os.path.join(VERIF, 'DESIGN.md')
 d = open(path).read()
 a, b = '<!-- seed-table-begin -->\n', '<!-- seed-table-end -->\n'
